@@ -82,6 +82,8 @@ class FloatSpec (F : Type) extends FloatLike F where
   fmax_spec : ∀ {a b : F}, Fin a → Fin b → Fin (fmax a b) ∧ val (fmax a b) = max (val a) (val b)
   /-- `f64::is_normal` on a finite value: its magnitude is at least the smallest normal number `2^-1022` -/
   isNormal_spec : ∀ {a : F}, Fin a → (FloatLike.isNormal a = true ↔ (1:ℝ) / 2 ^ 1022 ≤ |val a|)
+  /-- `f64::is_finite` is true of every finite value -/
+  isFinite_spec : ∀ {a : F}, Fin a → FloatLike.isFinite a = true
   -- ---------------------------------------------------------------- comparisons
   flt_spec : ∀ {a b : F}, Fin a → Fin b → (flt a b = true ↔ val a < val b)
   fle_spec : ∀ {a b : F}, Fin a → Fin b → (fle a b = true ↔ val a ≤ val b)
